@@ -63,7 +63,9 @@ class _TwoRun(Contract):
     first_index_tie_rule = True   # torch docs: argmax / max(dim) return the FIRST maximal index
     dims = ("SA", "SB", "C", "H", "W")
     dim_ranges = {"SA": (1, 2), "SB": (1, 2), "C": (1, 2), "H": (1, 2), "W": (1, 2)}
-    rand_ranges = {"SA": (1, 3), "SB": (1, 3), "a": (0, 2), "b": (0, 2), "C": (1, 2), "H": (2, 5), "W": (2, 5), "cms_A": (0.0, 1.0), "cms_B": (0.0, 1.0), "threshold": (0.0, 0.6)}
+    # batch-mates are drawn dimmer than the frame so that mixed batches (a detected frame next
+    # to an empty one) are common in the concrete search
+    rand_ranges = {"SA": (1, 3), "SB": (1, 3), "a": (0, 2), "b": (0, 2), "C": (1, 2), "H": (2, 5), "W": (2, 5), "cms_A": (0.0, 1.0), "cms_B": (0.0, 0.5), "threshold": (0.2, 0.9)}
 
 
 @contract
@@ -71,7 +73,13 @@ class GlobalPeaksBatchIndependence(_TwoRun):
     target = PF + "find_global_peaks#batch-independence"
     props = ("C12",)
     always_inline = (PF + "find_global_peaks", PF + "find_global_peaks_rough")
-    cases = ("rough", "none")
+    # "integralP:C:b": integral refinement, the frame alone (batch of 1) against the frame as
+    # sample b of a batch of 2, C channels -- bounded in batch/channel count like C07's
+    # refinement cases; map size, values and threshold symbolic
+    cases = ("rough", "none", "integral5:1:0", "integral5:1:1", "integral3:1:1")
+    thorough_cases = cases + ("integral3:1:0", "integral2:1:1")
+    bounded = ("the relational form of integral refinement is decided for a frame alone vs. as one of 2 samples, 1 channel, patch sizes 3 and 5 (thorough: 2); "
+               "with 2 channels the 16 validity patterns x crop batches exceed the time budget and are not claimed",)
     not_decided = ("CentroidCrop.forward / _generate_crops: per-sample split of the peak list, top-k by value when max_instances is set, NaN padding and the skip of all-NaN samples "
                    "(python loops over a symbolic number of peaks; outside the verifier's subset) -- so 'the instances kept are the highest-scoring ones' is NOT decided",
                    "BottomUpInferenceModel._generate_cms_peaks / forward (split by sample index; nested tensors) and PAFScorer.predict batch glue",
@@ -80,10 +88,21 @@ class GlobalPeaksBatchIndependence(_TwoRun):
                    "the network itself: per-sample independence of the model in eval mode is an ASSUMPTION of these contracts (ghost TableNet)")
 
     def inputs(self, c, case):
+        if case.startswith("integral"):
+            P, C, b = case[len("integral"):].split(":")
+            SA, SB, a, b, C = 1, 2, 0, int(b), int(C)
+            H, W = c.dim("H", lo=2), c.dim("W", lo=2)
+            A, B = _pair(c, "cms", SA, SB, a, b, [C, H, W], lo=0.0)
+            thr = c.real("threshold")
+            c.assume(V.f_lt(0.0, thr))
+            # the valid-peak mask has S*C <= 4 cells: decide them by path forks so that the rows
+            # of the crop batch are concrete on every path
+            c.path.concretize_masks = True
+            return dict(cms_a=A, cms_b=B, a=a, b=b, threshold=thr, which="integral", patch=int(P))
         SA, SB, a, b = _batch_dims(c)
         C, H, W = c.dim("C", lo=1), c.dim("H", lo=1), c.dim("W", lo=1)
         A, B = _pair(c, "cms", SA, SB, a, b, [C, H, W])
-        return dict(cms_a=A, cms_b=B, a=a, b=b, threshold=c.real("threshold"), which=case)
+        return dict(cms_a=A, cms_b=B, a=a, b=b, threshold=c.real("threshold"), which=case, patch=5)
 
     def run(self, interp, args):
         if args["which"] == "rough":
@@ -91,7 +110,14 @@ class GlobalPeaksBatchIndependence(_TwoRun):
             kw = dict(threshold=args["threshold"])
         else:
             f = interp.resolve_dotted(PF + "find_global_peaks")
-            kw = dict(threshold=args["threshold"], refinement=None)
+            kw = dict(threshold=args["threshold"], refinement=("integral" if args["which"] == "integral" else None), integral_patch_size=args["patch"])
+        self._rough = None
+        if args["which"] == "integral":
+            # ghost calls: the rough detector on both batches (max/argmax of the same storage is
+            # memoised, so these are the very peaks the refinement starts from); their
+            # batch-independence is proved first and then available as a lemma
+            fr = interp.resolve_dotted(PF + "find_global_peaks_rough")
+            self._rough = (interp.call(fr, [args["cms_a"]], dict(threshold=args["threshold"])), interp.call(fr, [args["cms_b"]], dict(threshold=args["threshold"])))
         return (interp.call(f, [args["cms_a"]], dict(kw)), interp.call(f, [args["cms_b"]], dict(kw)))
 
     def real_call(self, ra):
@@ -99,10 +125,15 @@ class GlobalPeaksBatchIndependence(_TwoRun):
 
         if ra["which"] == "rough":
             return (pf.find_global_peaks_rough(ra["cms_a"], threshold=ra["threshold"]), pf.find_global_peaks_rough(ra["cms_b"], threshold=ra["threshold"]))
-        return (pf.find_global_peaks(ra["cms_a"], threshold=ra["threshold"], refinement=None), pf.find_global_peaks(ra["cms_b"], threshold=ra["threshold"], refinement=None))
+        kw = dict(threshold=ra["threshold"], refinement=("integral" if ra["which"] == "integral" else None), integral_patch_size=int(ra["patch"]))
+        return (pf.find_global_peaks(ra["cms_a"], **kw), pf.find_global_peaks(ra["cms_b"], **kw))
 
-    def ensures(self, c, result, cms_a, cms_b, a, b, threshold, which):
+    def ensures(self, c, result, cms_a, cms_b, a, b, threshold, which, patch=5):
         (p1, v1), (p2, v2) = result
+        if which == "integral" and c.symbolic and getattr(self, "_rough", None):
+            (rp1, rv1), (rp2, rv2) = self._rough
+            for nm, cl in _rows_equal("step/rough-peak-points-do-not-depend-on-the-batch", rp1, rp2, a, b) + _rows_equal("step/rough-peak-values-do-not-depend-on-the-batch", rv1, rv2, a, b):
+                c.lemma(nm, cl, then=cl, level="helper")
         return _rows_equal("PL/peak-points-of-the-frame-do-not-depend-on-its-batch", p1, p2, a, b) + \
             _rows_equal("PL/peak-values-of-the-frame-do-not-depend-on-its-batch", v1, v2, a, b)
 
